@@ -515,4 +515,5 @@ HYPOTHESES = [
     'is_field F (field_theory of the dictionary operations, Leibniz equality) -- premise of every theorem',
     'fis0 F x = true <-> x = 0 (correct zero test) -- batch inversion theorem',
     'omega^m = 1 (the domain generator has order dividing the size) -- parallel_fft theorem',
+    'mixed-radix theorems (non-partial): domain size n = 2^s q^t, q odd >= 3, gen^n = 1, gen^(n/2) = -1 when s >= 1, gen*gen_inv = 1 (ifft)',
 ]
